@@ -47,8 +47,8 @@ CHECKS = {
     "C07": dict(
         technique="property-based testing (Hypothesis): inverse/linearity/Jacobian relations between the engine's atomic total forces and the reported variable total force, both timing conventions",
         level="exploration",
-        text="Generated variables from the total-force-capable component table with generated system forces: reported total force equals the projection of what the engine supplied (closed forms for controlled variables, linearity and one-step lag otherwise), own bias subtracted exactly once in the late convention; histories in which walls switch on and off, every step compared.",
-        note="Near-singular dihedrals are discarded by a stated filter; eigenvector is generated with a fitting group disjoint from the main group; alchLambda is not in the table; time-step factors are left to C08. A total force of exactly zero is taken by the code as 'not available' (nothing subtracted) and is skipped.",
+        text="Generated variables from the total-force-capable component table with generated system forces: reported total force equals the projection of what the engine supplied (closed forms for controlled variables, linearity and one-step lag otherwise), own bias subtracted exactly once in the late convention; histories in which walls switch on and off, every step compared; alchemical variable (alchLambda driven by an extended-Lagrangian coordinate): reported force = -dE/dlambda of the same step, lambda sent = integrated coordinate, acceleration = (bias - dE/dlambda)/mass.",
+        note="Near-singular dihedrals are discarded by a stated filter; eigenvector is generated with a fitting group disjoint from the main group; the indirect force of a bias on alchFLambda is not generated; time-step factors are left to C08. A total force of exactly zero is taken by the code as 'not available' (nothing subtracted) and is skipped.",
         design="DESIGN.md section 4 C07"),
     "C08": dict(
         technique="differential property testing (Hypothesis): superposition (all objects together vs each alone) and multiple-time-step schedule model",
@@ -89,8 +89,8 @@ CHECKS = {
     "C14": dict(
         technique="stateful property testing over schedules (Hypothesis) with the harness owning the interleaving: 2-4 walker processes driven through pipes; model of 'every sample/hill exactly once'; fault injection (peer death, restart at an exchange boundary, peer hills file cut at a generated byte)",
         level="exploration",
-        text="Shared ABF over a socket star: final samples/gradient/local arrays of every walker against the union model (counts exact, means 1e-10), peer death leaves survivors' data intact and is reported as an error. Multiple-walker metadynamics through files: per-site hill multiplicities decoded from each walker's bias at every probe, bounded below by what peers had published and above by what they deposited; own state holds own hills only.",
-        note="Two listed known findings (ABF sample of the exchange step lost over a restart; metadynamics state-rewrite lag) are reported as KNOWN-FINDING and the case continues with the weaker bound. Errors raised while a peer's file is incomplete are tolerated (the property only forbids corruption). OPES multiple walkers and shared CZAR are not generated.",
+        text="Shared ABF over a socket star: final samples/gradient/local arrays of every walker against the union model (counts exact, means 1e-10), peer death leaves survivors' data intact and is reported as an error. Multiple-walker metadynamics through files: per-site hill multiplicities decoded from each walker's bias at every probe, bounded below by what peers had published and above by what they deposited; own state holds own hills only. Shared eABF (replica_share_CZAR): the z-histogram gathered by replica 0 = union of the walkers' local z-histograms (each = its own samples once), gathered z-gradient = their sample-weighted mean, with all or some walkers restarted between runs.",
+        note="Two listed known findings (ABF sample of the exchange step lost over a restart; metadynamics state-rewrite lag) are reported as KNOWN-FINDING and the case continues with the weaker bound. Errors raised while a peer's file is incomplete are tolerated (the property only forbids corruption). OPES multiple walkers are not generated.",
         design="DESIGN.md section 4 C14"),
     "C20": dict(
         technique="coverage-guided fuzzing (libFuzzer, ASan+UBSan) of script command sequences with the 'result xor error' and 'module still usable' oracles inside the target; property-based testing (Hypothesis) of query/trace agreement and of script-vs-engine action equivalence",
